@@ -235,6 +235,17 @@ func buildWorld(c *c21Case) *c21World {
 		}
 		if r.Intn(2) == 0 && len(w.docs) > 0 {
 			req.Update = append(req.Update, &gpb.Update{Path: &gpb.Path{}, Val: model.JSONTV(w.docs[r.Intn(3)])})
+		} else if r.Intn(3) > 0 {
+			factorPrefix(req, r.Intn(2) == 0)
+		}
+		if r.Intn(3) == 0 {
+			// as decoded from the wire
+			if b, err := proto.Marshal(req); err == nil {
+				n := &gpb.SetRequest{}
+				if proto.Unmarshal(b, n) == nil {
+					req = n
+				}
+			}
 		}
 		w.reqs = append(w.reqs, req)
 	}
@@ -242,6 +253,51 @@ func buildWorld(c *c21Case) *c21World {
 		w.roots = append(w.roots, g.Tree(w.p.RootType(), w.sch).(ygot.GoStruct))
 	}
 	return w
+}
+
+// factorPrefix moves the common leading elements of every path of the request into its
+// Prefix. The prefix's element slice gets spare capacity (as slices grown by append or
+// decoded from the wire usually have), so that code appending to it without copying would
+// write into memory shared by every user of the message.
+func factorPrefix(req *gpb.SetRequest, whole bool) {
+	var paths []*gpb.Path
+	paths = append(paths, req.Delete...)
+	for _, u := range req.Replace {
+		paths = append(paths, u.Path)
+	}
+	for _, u := range req.Update {
+		paths = append(paths, u.Path)
+	}
+	if len(paths) == 0 {
+		return
+	}
+	n := len(paths[0].Elem) - 1
+	for _, p := range paths[1:] {
+		k := 0
+		for k < n && k < len(p.Elem)-1 && proto.Equal(p.Elem[k], paths[0].Elem[k]) {
+			k++
+		}
+		n = k
+	}
+	if n <= 0 {
+		return
+	}
+	if !whole && n > 1 {
+		n = 1
+	}
+	pre := make([]*gpb.PathElem, n, n+6)
+	copy(pre, paths[0].Elem[:n])
+	req.Prefix = &gpb.Path{Elem: pre}
+	strip := func(p *gpb.Path) *gpb.Path { return &gpb.Path{Elem: append([]*gpb.PathElem{}, p.Elem[n:]...)} }
+	for i := range req.Delete {
+		req.Delete[i] = strip(req.Delete[i])
+	}
+	for _, u := range req.Replace {
+		u.Path = strip(u.Path)
+	}
+	for _, u := range req.Update {
+		u.Path = strip(u.Path)
+	}
 }
 
 var c21ReadOps = []string{"validate", "validate-leafref", "emitjson", "emitjson-rfc", "marshal7951", "construct", "tognmi", "tognmi-slice", "getnode", "getnode-wild", "diff", "diffatomic", "deepcopy", "encodetv", "evict"}
